@@ -32,7 +32,7 @@ def gen_case(rng, tier, index):
     # (more calls into one function and more function-centred edit sets than
     # the other listing checks: return edges are this property's subject)
     return gen_rewrite.generate(rng, tier, popular_callee_p=0.35,
-                                themed_p=0.4)
+                                themed_p=0.4, call_pair_p=0.2)
 
 
 def run_case(case):
